@@ -7,7 +7,8 @@ from . import ants_common as ac
 
 PROP = "C07"
 KINDS_QUICK = [("retry-outcomes", "retry", 2400), ("burst-discard", "burst", 1200), ("deadline-ties(allowed-set)", "ties", 1200),
-               ("non-cooperative", "stubborn", 400), ("cancelled-dispatcher-context", "pcancel", 1200)]
+               ("non-cooperative", "stubborn", 400), ("cancelled-dispatcher-context", "pcancel", 1200),
+               ("retry-until-success(huge R)", "hugeR", 200)]
 
 
 def monitors(r):
